@@ -14,6 +14,13 @@ def http_suite(name, mask, monitor=None, count_quick=400, count_thorough=5000):
                 check="http_code %d http_small_cap" % mask, monitor=monitor,
                 count_quick=count_quick, count_thorough=count_thorough, nontrivial_bits=3)
 
+WS_CASE = "nat * nat * N * N * list (wop * list wout)"
+
+def ws_suite(name, count_quick=400, count_thorough=6000):
+    return dict(name=name, harness="ws-swarm", imports=["WsCheck"], case_type=WS_CASE, check="ws_code", monitor="ws_mon",
+                classify=("ws_class_code", {1: "conn-id-collision"}),
+                count_quick=count_quick, count_thorough=count_thorough, nontrivial_bits=3)
+
 PROPS = {}
 
 PROPS["C01"] = dict(
@@ -29,7 +36,8 @@ PROPS["C01"] = dict(
 
 PROPS["C02"] = dict(
     suites=[udp_suite("udp-swarm-peers", 0b00010, monitor="mon_c02", count_quick=320),
-            http_suite("http-swarm-peers", 0b00010, monitor="mon_c02_http", count_quick=320)],
+            http_suite("http-swarm-peers", 0b00010, monitor="mon_c02_http", count_quick=320),
+            ws_suite("ws-swarm-receivers", count_quick=240)],
     rule="same histories as C01 (real aquatic_udp TorrentMaps); compared: the exact reply peer list of every announce against the model under "
          "some offset pair the model allows; non-trivial = history crosses inline->heap->inline",
     modelled="extract_response_peers (udp, http: identical text) and the numwant/limit computation are modelled in coq/Model/PeerMap.v",
@@ -49,8 +57,9 @@ PROPS["C07"] = dict(
 PROPS["C10"] = dict(
     suites=[udp_suite("udp-swarm-expiry", 0b01011, monitor="mon_c10", count_quick=320),
             http_suite("http-swarm-expiry", 0b01011, monitor="mon_c07", count_quick=320),
+            ws_suite("ws-swarm-expiry", count_quick=240),
             dict(name="valid-until", harness="valid-until", imports=["Expiry"], case_type="N * N * bool * list (N * bool)",
-                 check="vu_code", monitor=None, count_quick=400, count_thorough=20000, nontrivial_bits=3, shrink=False)],
+                 check="vu_code", monitor="vu_code", count_quick=400, count_thorough=20000, nontrivial_bits=3, shrink=False)],
     rule="udp/http: the C01/C07 histories, whose cleaning passes are placed one second before, at, and one second after stored deadlines "
          "(inline and heap maps, seeders and leechers, re-announces); valid-until: ValidUntil::new/new_with_now/valid on the real code under the "
          "mock clock for edge and random (sample, age) pairs, probed at deadline-2..deadline+1, 0, 2^32-2, 2^32-1; non-trivial = history crosses "
@@ -64,7 +73,7 @@ _c20_udp["classify"] = ("c20_class_code", {1: "tally-peer-id-change", 2: "forbid
 PROPS["C20"] = dict(
     suites=[_c20_udp,
             dict(name="export-crash", harness="export-crash", imports=["Export"], case_type="nat * bool * nat * list (bool * N)",
-                 check="export_code", monitor=None, count_quick=60, count_thorough=600, nontrivial_bits=3, shrink=False)],
+                 check="export_code", monitor="export_code", count_quick=60, count_thorough=600, nontrivial_bits=3, shrink=False)],
     rule="udp-swarm histories with statistics.peer_clients on in 2/3 of them, a statistics output enabled and exports written on every clean: "
          "the PeerAdded/PeerRemoved stream is read from the real statistics channel, totals from the SwarmWorkerStatistics atomics, the export "
          "file is read back; export-crash: a child process runs a cleaning pass with 0..4 exported torrents and aborts itself after the k-th "
@@ -79,9 +88,10 @@ PROPS["C20"] = dict(
 PROPS["C11"] = dict(
     suites=[dict(name="access-list-files", harness="access-list", imports=["AccessListFile"],
                  case_type="bool * list (acl_mode * option string * bool * list (N * bool * bool * bool))",
-                 check="acl_code", monitor=None, count_quick=400, count_thorough=20000, nontrivial_bits=3, shrink=False),
+                 check="acl_code", monitor="acl_code", count_quick=400, count_thorough=20000, nontrivial_bits=3, shrink=False),
             udp_suite("udp-swarm-acl", 0b01011, monitor="mon_c01", count_quick=240),
-            http_suite("http-swarm-acl", 0b01011, monitor="mon_c07", count_quick=240)],
+            http_suite("http-swarm-acl", 0b01011, monitor="mon_c07", count_quick=240),
+            ws_suite("ws-swarm-acl", count_quick=200)],
     rule="access-list-files: sequences of 1..5 reloads through the real update_access_list (modes allow/deny/off) from generated files - "
          "empty, upper/lower/mixed-case hex, blank and white-space-only lines, leading/trailing blanks/tabs/VT/FF/CR, CRLF, missing final "
          "newline, a bad line (39/41/42 digits, non-hex, inner blank, non-ASCII, invalid UTF-8) at a random position, missing file, "
@@ -97,7 +107,7 @@ PROPS["C11"] = dict(
 PROPS["C05"] = dict(
     suites=[dict(name="validator", harness="validator", imports=["Validator"],
                  case_type="N * list (string * N) * list (N * string * string * bool)",
-                 check="validator_code", monitor=None, count_quick=300, count_thorough=20000, nontrivial_bits=3, shrink=False)],
+                 check="validator_code", monitor="validator_code", count_quick=300, count_thorough=20000, nontrivial_bits=3, shrink=False)],
     rule="real ConnectionValidator with the clock override (hook H2): max_connection_age in {0,1,59,60,61,120,2^31,2^32-2,2^32-1}, ids issued "
          "by the implementation at edge/random times for 6 addresses of both families, then queried at issue time, at t0+age-1 / t0+age / "
          "t0+age+1, at t0-59/-60/-61, at 2^32-1 and at random clocks, from the same and from other addresses, plus a third of all single-bit "
@@ -123,6 +133,27 @@ PROPS["C13"] = dict(
     modelled="request.rs / response.rs parse_bytes and write_bytes (UdpCodec.v) over layouts regenerated from the #[repr(C, packed)] structs; "
              "zerocopy's prefix/exact-size/slice reads and enum validity as modelled in Lib/Layout.v",
     assumptions=["lossy UTF-8 decoding of error texts is compared on valid UTF-8 only"],
+)
+
+_WS_RULE = ("histories of 8..57 ops on the real aquatic_ws swarm storage (hook H6, mock clock H1): announces from 6 connections on 2 socket "
+            "workers whose slot-map connection ids deliberately coincide, 5 peer ids (a connection mostly uses its own, sometimes another's), "
+            "3 info hashes, all events, left absent/0/5, 0..4 offers with repeated offer ids, answers that half of the time answer an offer the "
+            "tracker really forwarded to that connection and otherwise name random peers/offer ids, scrapes (incl. absent hash list), "
+            "connection-closed notifications, cleaning passes under the three access-list modes; max_offers in {0,1,2,3,10}, max ages in "
+            "{1..40}; compared: the complete list of (destination, message) pairs of every op; non-trivial = at least one offer AND one "
+            "answer were forwarded")
+PROPS["C08"] = dict(
+    suites=[ws_suite("ws-swarm-bookkeeping")],
+    rule=_WS_RULE,
+    modelled="crates/ws/src/workers/swarm/storage.rs (all of it) in WsSwarm.v; the socket worker's announced_info_hashes bookkeeping is "
+             "modelled in WsRouting.v (C17)",
+    assumptions=["one swarm worker's storage; channel interleavings between workers are C17", "IndexMap semantics as modelled"],
+)
+PROPS["C09"] = dict(
+    suites=[ws_suite("ws-swarm-relay")],
+    rule=_WS_RULE,
+    modelled="handle_offers / handle_answer / extract_response_peers / clean of storage.rs in WsSwarm.v",
+    assumptions=["rand's random_range contract (offsets universally quantified in the theorems)"],
 )
 
 LEVELS = {
@@ -188,7 +219,28 @@ LEVELS["C13"] = dict(
     design_ref="DESIGN.md §7 C13", technique="Coq codec proofs over source-generated layouts + translator + in-Coq differential check",
     note="Trusted: Coq kernel, translator (layouts), model of zerocopy reads, harness.")
 
+LEVELS["C08"] = dict(
+    text="Theorems: every operation on a reachable state succeeds and keeps num_seeders = #seeders and peer ids unique (no underflow); an "
+         "announce installs exactly its status/deadline for its own id, keeps the creator, touches nobody else; a foreign announce (different "
+         "connection id) is inert; the code's ownership test equals the intended one when connection ids are unique across socket workers; "
+         "close removes exactly that entry. Two recorded findings are refuted in Coq with witnesses (connection-id collision across socket "
+         "workers; close without owner check). Tied to the real storage by in-Coq comparison of full message lists.",
+    design_ref="DESIGN.md §7 C08", technique="Coq invariant + step laws + refuted-finding witnesses; in-Coq correspondence",
+    note="Trusted: Coq kernel, model WsSwarm.v, harness with hooks H1/H6.")
+LEVELS["C09"] = dict(
+    text="Theorems for all swarm sizes, offer lists, limits and random offsets: offers go one-to-one to min(offers, max_offers, others) "
+         "distinct other stored peers, tagged with the sender, addressed to the receiver's own connection; none on stopped; an answer is "
+         "forwarded iff the addressed peer is stored and holds that pending expectation, which is consumed (a repeat is an error); pending "
+         "offers age out exactly at their deadline. Tied to the code by comparing every forwarded message of generated histories.",
+    design_ref="DESIGN.md §7 C09", technique="Coq proofs over the relay functions + in-Coq correspondence of message lists",
+    note="Trusted: Coq kernel, model, harness.")
+
 NOT_APPLICABLE = [
     dict(property_id=p, reason="check not built yet in this round (work in progress; planned per DESIGN.md §10)")
     for p in ["C%02d" % i for i in range(1, 21)] if p not in PROPS
 ]
+
+# Where the executable model of a pure function IS the specification the theorems characterise
+# (validator window, access-list grammar, ValidUntil arithmetic, export crash view, BEP 15 codec),
+# the suite's monitor is the model itself: a disagreeing case is then a concrete input on which
+# the implementation deviates from the proven specification.
